@@ -371,9 +371,11 @@ VEX_REG_CLASSES = {"rvm": (0x72, 0x75), "rm": (0x68, 0x6B), "rvmi": (0x7A, 0x7C)
                    # X86Mov between general-purpose registers / memory: `mov r/m, reg` (88 / 89) and `mov reg, r/m` (8A / 8B)
                    "lmov": (0x2C,), "lmovrm": (0x2C,),
                    # VexMr_Lx, VexMri / VexMri_Lx: r/m operand first
-                   "mr": (0x62,), "mri": (0x64, 0x65)}
+                   "mr": (0x62,), "mri": (0x64, 0x65),
+                   # X86Lea: `lea reg, mem` (the memory operand has no register alternative: only the register kind is listed)
+                   "llea": (0x2B,)}
 SHAPE_ROLES = {"rvm": ["reg", "vvvv", "rm"], "rm": ["reg", "rm"], "rvmi": ["reg", "vvvv", "rm", "imm"], "rmi": ["reg", "rm", "imm"],
-               "lrm": ["reg", "rm"], "lmr": ["rm", "reg"], "lrmi": ["reg", "rm", "imm"], "lop": None, "larith": ["rm", "reg"], "lrot": ["rm", "imm"], "larithi8": ["rm", "imm"], "lopreg": ["opc"], "larithrm": ["reg", "rm"], "lmov": ["rm", "reg"], "lmovrm": ["reg", "rm"], "mr": ["rm", "reg"], "mri": ["rm", "reg", "imm"]}
+               "lrm": ["reg", "rm"], "lmr": ["rm", "reg"], "lrmi": ["reg", "rm", "imm"], "lop": None, "larith": ["rm", "reg"], "lrot": ["rm", "imm"], "larithi8": ["rm", "imm"], "lopreg": ["opc"], "larithrm": ["reg", "rm"], "lmov": ["rm", "reg"], "lmovrm": ["reg", "rm"], "mr": ["rm", "reg"], "mri": ["rm", "reg", "imm"], "llea": ["reg", "rm"]}
 
 
 def class_rows_lean(kept, rows, chunk=96):
@@ -412,6 +414,8 @@ def class_rows_lean(kept, rows, chunk=96):
                 if role == "imm":
                     if o["imm"] != 8:
                         okf = False
+                    continue
+                if shape == "llea" and not o["reg"]:
                     continue
                 if o["reg"] not in CLASS or (len(CLASS[o["reg"]]) != 1 and shape not in ("larith", "lrot", "larithi8", "larithrm", "lmov", "lmovrm")) or o["implicit"]:
                     okf = False
